@@ -166,4 +166,56 @@ example : ∃ (p : Cog7.P) (r t : ℝ), 0 < r ∧ 0 < p.tau ^ 2 - t ^ 2 ∧ 0 < 
   · simp only [cog7_gamma]; norm_num
   · simp only [cog7_gamma]; norm_num
 
+/-! ### The returned fields (tree level)
+
+The only path condition is `t ≤ 0` (NaN fields); where the solver returns numbers the returned
+fields are those of leaf 1, on the whole line {(x, t)} and for all times near t. -/
+
+
+theorem cog7_tree (p : Cog7.P) (r t : ℝ) (h : Cog7.outcome p r t = .ok) :
+    0 < t ∧ AgreeAt (Cog7.density p) (Cog7.L1.density p) r t
+      ∧ AgreeAt (Cog7.velocity p) (Cog7.L1.velocity p) r t
+      ∧ AgreeAt (Cog7.temperature p) (Cog7.L1.temperature p) r t := by
+  have ht : 0 < t := by
+    by_contra hc
+    have hc' : t ≤ 0 := not_lt.mp hc
+    simp [epv_tree, epv_cond, hc'] at h
+  have e : ∀ x s, 0 < s → Cog7.density p x s = Cog7.L1.density p x s
+      ∧ Cog7.velocity p x s = Cog7.L1.velocity p x s
+      ∧ Cog7.temperature p x s = Cog7.L1.temperature p x s := by
+    intro x s hs
+    have hns : ¬ s ≤ 0 := not_le.mpr hs
+    simp only [epv_tree, epv_cond, hns, if_false, and_self]
+  refine ⟨ht, ⟨fun x => (e x t ht).1, ?_⟩, ⟨fun x => (e x t ht).2.1, ?_⟩, ⟨fun x => (e x t ht).2.2, ?_⟩⟩
+  · filter_upwards [Ioi_mem_nhds ht] with s hs using (e r s hs).1
+  · filter_upwards [Ioi_mem_nhds ht] with s hs using (e r s hs).2.1
+  · filter_upwards [Ioi_mem_nhds ht] with s hs using (e r s hs).2.2
+
+/-- mass balance of the returned (tree-level) fields -/
+theorem cog7_mass_tree (p : Cog7.P) (r t : ℝ) (h : Cog7.outcome p r t = .ok) (hr : 0 < r) (hx : 0 < p.tau ^ 2 - t ^ 2)
+    (hW : 0 < cog7_W p r t) :
+    massRes (Cog7.density p) (Cog7.velocity p) (p.geometry - 1) r t = 0 := by
+  obtain ⟨ht, hρ', hu', hT'⟩ := cog7_tree p r t h
+  rw [massRes_congr hρ' hu']
+  exact cog7_mass p r t hr hx hW
+
+/-- momentum balance of the returned (tree-level) fields -/
+theorem cog7_momentum_tree (p : Cog7.P) (r t : ℝ) (h : Cog7.outcome p r t = .ok) (hr : 0 < r) (hx : 0 < p.tau ^ 2 - t ^ 2)
+    (hW : 0 < cog7_W p r t) (hΓ : p.Gamma ≠ 0) (hg0 : cog7_gamma p ≠ 0) (hγ : cog7_gamma p - 1 ≠ 0)
+    (hb : 2 * cog7_gamma p - p.b ≠ 0) (hρ : Cog7.density p r t ≠ 0) :
+    momResT (Cog7.density p) (Cog7.velocity p) (Cog7.temperature p) p.Gamma r t = 0 := by
+  obtain ⟨ht, hρ', hu', hT'⟩ := cog7_tree p r t h
+  rw [hρ'.eq] at hρ
+  rw [momResT_congr hρ' hu' hT']
+  exact cog7_momentum p r t hr hx hW hΓ hg0 hγ hb hρ
+
+/-- energy balance of the returned (tree-level) fields -/
+theorem cog7_energy_tree (p : Cog7.P) (r t : ℝ) (h : Cog7.outcome p r t = .ok) (hr : 0 < r) (hx : 0 < p.tau ^ 2 - t ^ 2)
+    (hΓ : p.Gamma ≠ 0) (hk : (p.geometry - 1) + 1 ≠ 0) (hb : 2 * cog7_gamma p - p.b ≠ 0) (c a α β : ℝ) :
+    energyResT (Cog7.density p) (Cog7.velocity p) (Cog7.temperature p) p.Gamma (cog7_gamma p)
+      (p.geometry - 1) c a 0 α β r t = 0 := by
+  obtain ⟨ht, hρ', hu', hT'⟩ := cog7_tree p r t h
+  rw [energyResT_congr hρ' hu' hT']
+  exact cog7_energy p r t hr hx hΓ hk hb c a α β
+
 end EPV.C01
